@@ -109,7 +109,11 @@ def run(ctx):
     ctx.check_proofs(["MPilot.Props.C09"])
     model = common.Model()
 
+    alias_cases = []
+
     def inputs_unchanged(case, out, ans):
+        if out["status"] == "ok" and case.inputs:
+            alias_cases.append((case, any(out["result"] is p._arr for p in out["producers"])))
         # run_stream executes on copies; compare the copies it used with the originals
         for before, after in zip(case.inputs, out["inputs_after"]):
             d = changed(snapshot(before), after)
@@ -118,6 +122,12 @@ def run(ctx):
     cases = [eems.gen_case(ctx.rng, cmd, style="valid", n=(1 if i % 2 == 0 and eems.COMMANDS[cmd][1] == "list" and cmd != "FuzzyXOr" else None))
              for cmd in eems.COMMANDS for i in range(ctx.budget(8, 300))]
     eems.run_stream(ctx, model, cases, "exec:all-commands:inputs-after", on_result=inputs_unchanged)
+    # identity facts: which commands hand back one of their input objects (heap model `aliases`)
+    answers = model.ask(["alias %s %d" % (c.spec(), len(c.inputs)) for c, _ in alias_cases])
+    for (c, is_alias), a in zip(alias_cases, answers):
+        ctx.count("c09_alias_checked")
+        if (a == "1") != is_alias:
+            ctx.disagree("heap:aliasing", c.describe(), "result is an input object: %s" % is_alias, "aliases = " + a)
     sequences(ctx, model, ctx.budget(60, 2500), 8)
     mixed_shapes(ctx, ctx.budget(150, 4000))
     return ctx.finish(
